@@ -51,9 +51,10 @@ def gen_world(rng: random.Random, parse_friendly: bool) -> World:
         w.m[e]["db"] = db
     tables = []
     used = set()
+    exotic = [] if parse_friendly else ["with space", "ünï", "x-y", "Select"]
     for k in range(rng.randint(1, 4)):
         while True:
-            nm, sc = rng.choice(NAME_POOL), rng.choice(SCHEMAS)
+            nm, sc = rng.choice(NAME_POOL + exotic), rng.choice(SCHEMAS)
             if (nm, sc) not in used:
                 used.add((nm, sc))
                 break
@@ -726,7 +727,7 @@ def draw_op(rng: random.Random, eng: C10Engine) -> List[Any]:
             f = rng.choice(["name", "name", "schema", "alias", "header_color", "comment"])
             v = {"name": rng.choice(NAME_POOL + ["renamed"]), "schema": rng.choice(SCHEMAS + ["s9"]),
                  "alias": rng.choice([None, "al9", "zz"]), "header_color": rng.choice(COLORS),
-                 "comment": rng.choice([None, "new c", "a\nb"])}[f]
+                 "comment": rng.choice([None, "new c", "a\nb", ""])}[f]
             return ["set", t, f, v]
         cols = [c for t in tables for c in m[t]["cols"]]
         c = rng.choice(cols)
@@ -738,7 +739,7 @@ def draw_op(rng: random.Random, eng: C10Engine) -> List[Any]:
         elif f == "default":
             v = rng.choice(DEFAULTS)
         elif f == "comment":
-            v = rng.choice([None, "cmt", "c\nd"])
+            v = rng.choice([None, "cmt", "c\nd", ""])
         else:
             v = not m[c][f]
         return ["set", c, f, v]
